@@ -236,3 +236,59 @@ Proof.
   repeat (rewrite <- ?app_assoc; cbn [app]).
   reflexivity.
 Qed.
+
+(* ---- MarshalText: Write into a bytes.Buffer ------------------------------------------------------ *)
+Theorem imp_Fasta_MarshalText fuel r : (length (Fasta.seq r) < fuel)%nat ->
+  imp_fasta_Fasta_MarshalText fuel (fa_of r)
+  = match Fasta.marshal_text r with Ok b => Ret (b, false) | _ => Panics end.
+Proof.
+  intros Hf. unfold imp_fasta_Fasta_MarshalText, Fasta.marshal_text. cbv zeta.
+  unfold go_make. cbn [Z.ltb Z.compare Z.to_nat repeat].
+  rewrite (imp_Fasta_Write fuel r Hf). cbn [go_call app]. fold (Fasta.write r).
+  unfold fa_of. cbn [imp_fasta_Fasta_Name imp_fasta_Fasta_Sequence]. unfold go_len, Fasta.marshal_len, Fasta.text_line_len.
+  replace (Z.of_nat (length (Fasta.write r)) =? 2 + Z.of_nat (length (Fasta.name r)) + Z.of_nat (length (Fasta.seq r))
+             + Z.quot (Z.of_nat (length (Fasta.seq r)) + 80 - 1) 80)
+    with (Nat.eqb (length (Fasta.write r)) (2 + length (Fasta.name r) + length (Fasta.seq r) + (length (Fasta.seq r) + 80 - 1) / 80)).
+  - destruct (Nat.eqb _ _); reflexivity.
+  - rewrite Z.quot_div_nonneg by lia.
+    destruct (Nat.eqb_spec (length (Fasta.write r)) (2 + length (Fasta.name r) + length (Fasta.seq r) + (length (Fasta.seq r) + 80 - 1) / 80)) as [E|E];
+      symmetry; [apply Z.eqb_eq|apply Z.eqb_neq]; lia.
+Qed.
+
+Theorem imp_Fastq_MarshalText r :
+  imp_fastq_Fastq_MarshalText (fq_of r)
+  = match Fastq.marshal_text r with Ok b => Ret (b, false) | _ => Panics end.
+Proof.
+  unfold imp_fastq_Fastq_MarshalText, Fastq.marshal_text. cbv zeta.
+  unfold go_make. cbn [Z.ltb Z.compare Z.to_nat repeat].
+  rewrite imp_Fastq_Write. cbn [go_call app].
+  unfold fq_of. cbn [imp_fastq_Fastq_Name imp_fastq_Fastq_Sequence imp_fastq_Fastq_Quals]. unfold go_len.
+  set (buf := concat (Fastq.write_calls r)).
+  replace (Z.of_nat (length buf) =? 6 + Z.of_nat (length (Fastq.name r)) + Z.of_nat (length (Fastq.seq r)) + Z.of_nat (length (Fastq.quals r)))
+    with (Nat.eqb (length buf) (6 + length (Fastq.name r) + length (Fastq.seq r) + length (Fastq.quals r))).
+  - destruct (Nat.eqb _ _); reflexivity.
+  - destruct (Nat.eqb_spec (length buf) (6 + length (Fastq.name r) + length (Fastq.seq r) + length (Fastq.quals r))) as [E|E];
+      symmetry; [apply Z.eqb_eq|apply Z.eqb_neq]; lia.
+Qed.
+
+Theorem imp_BED_MarshalText b :
+  imp_bed_BED_MarshalText (bed_of b)
+  = match Bed.write b with Ok bs => Ret (bs, 0) | _ => Ret ([], 2) end.
+Proof.
+  unfold imp_bed_BED_MarshalText, Bed.write. cbv zeta. rewrite imp_BED_Write.
+  destruct (Bed.write_calls b); cbn [go_call Z.eqb negb after app]; reflexivity.
+Qed.
+
+(* ---- smtext.extractSingleChar ---------------------------------------------------------------------- *)
+From Bio.Model Require Smtext.
+Theorem imp_extractSingleChar s :
+  imp_smtext_extractSingleChar s
+  = match Smtext.extract_single_char s with Ok b => Ret (b, false) | _ => Ret (0%N, true) end.
+Proof.
+  unfold imp_smtext_extractSingleChar, Smtext.extract_single_char, Smtext.GAP.
+  destruct s as [|c [|d r]].
+  - reflexivity.
+  - change (go_len [c] =? 1) with true. cbn [negb beqb]. rewrite andb_true_r.
+    destruct (c =? 42)%N; reflexivity.
+  - replace (go_len (c :: d :: r) =? 1) with false by (unfold go_len; cbn [length]; lia). reflexivity.
+Qed.
